@@ -156,9 +156,10 @@ Proof.
   destruct (body (with_pos st mark)) as [[result| |] st1] eqn:E; cbn [bind_r]; cbn in Hb1; try solve [split; cbn; tauto].
   destruct Hb1 as [HI1 [H1 H2]].
   destruct (truthy result) eqn:T; cbn [negb].
-  - destruct (Nat.leb (pos st1) lastmark) eqn:L.
+  - destruct (truthy lastresult && Nat.leb (pos st1) lastmark) eqn:L.
     + split; cbn; auto.
-    + apply Nat.leb_gt in L. apply IH; [exact Hk | exact Hb | | lia | congruence].
+    + assert (Hge : mark <= pos st1) by (cbn in H1; lia).
+      apply IH; [exact Hk | exact Hb | | exact Hge | congruence].
       apply inv_cache_set; [exact HI1|]. rewrite Hk. split; cbn; [lia|congruence].
   - split; cbn; auto.
 Qed.
